@@ -253,7 +253,14 @@ class WorkflowRecovery:
         messages_queued = 0
         failed_pushes = 0
 
-        for stage in full_workflow.stages:
+        # A workflow that has not been started yet is StartWorkflow's to start
+        # (it applies the concurrency limit and moves the workflow to RUNNING):
+        # starting its initial stages from here lets them finish under a
+        # NOT_STARTED workflow, which CompleteWorkflow cannot complete. The
+        # branch below re-queues StartWorkflow instead.
+        candidate_stages = [] if full_workflow.status == WorkflowStatus.NOT_STARTED else full_workflow.stages
+
+        for stage in candidate_stages:
             can_start = self._can_start(stage, full_workflow) if stage.status == WorkflowStatus.NOT_STARTED else None
             logger.debug(
                 "Recovery eval: stage=%s ref_id=%s status=%s has_started=%s can_start=%s tasks=%d",
